@@ -390,6 +390,22 @@ def node_depth(node):
     return 1 + max([node_depth(c) for c in node.children if c.kind in ("O", "A")] + [0])
 
 
+def exhaustive_script_queries(propset, Tobj, Tarr, K, restarts=0, scalars=("T",), witness_every=16):
+    """EVERY protocol-following script of at most K calls for EVERY tree up to T tokens (legality decided on the concrete
+    tree by simulating the reference cursor in vlib/shapes.py)"""
+    from . import shapes
+    qs = []
+    for root, T in ((1, Tobj), (2, Tarr)):
+        for node in shapes.gen_shapes(root, T, scalars, 3):
+            for s in shapes.all_scripts(node, K, max_restarts=restarts):
+                q = shape_script_query(propset, node, s, "all", root)
+                q.name = "allscripts.p%d.%s.%s" % (propset, node.label(), "-".join(s))
+                q.tags["variant"] = "exhaustive protocol-following scripts, K<=%d%s" % (K, ", one reset allowed" if restarts else "")
+                q.group = "h_script.allscripts.p%d" % propset
+                qs.append(q)
+    return _sparse_witness(qs, witness_every)
+
+
 def chain_queries(propset, tier, variants=None):
     from . import shapes
     qs = []
@@ -445,12 +461,14 @@ def plan_C06(tier):
         qs += chain_queries(6, tier, variants=("full", "skip", "raw"))
         qs += sibling_queries(6, ("skip", "raw"))
         qs += deep_chain_queries(6, (17,), ("skip",))
+        qs += exhaustive_script_queries(6, 6, 5, 9, restarts=1)
         cfg = [(3, 5, 5, (2,)), (3, 6, 5, (1,))]
     else:
         qs += shape_variant_queries(6, 1, 8, witness_every=8) + shape_variant_queries(6, 2, 7, witness_every=8)
         qs += chain_queries(6, tier)
         qs += sibling_queries(6, ("skip", "raw", "full"))
         qs += deep_chain_queries(6, (17, 33), ("full", "skip", "raw"))
+        qs += exhaustive_script_queries(6, 8, 7, 8) + exhaustive_script_queries(6, 6, 5, 9, restarts=1)
         # deep structure with a single scalar kind: every tree up to 10 tokens, nesting up to 4
         qs += shape_variant_queries(6, 2, 10, variants=("full", "skip", "raw"), scalars=("T",), max_nest=4, witness_every=16)
         qs += shape_variant_queries(6, 1, 10, variants=("full", "skip", "raw"), scalars=("T",), max_nest=4, witness_every=16)
@@ -467,8 +485,9 @@ def plan_C06(tier):
                 qs.append(script_query(6, s, n, 2, root, J=J if len(s) > 2 else None))
     info = {
         "rule": "(1) H-SHAPE: one query per (document shape, traversal script): shapes = all trees up to T tokens, scripts = full "
-                "traversal and every variant with one container skipped / raw-extracted / left early at every position; payload "
-                "bytes symbolic. (2) H-SCRIPT: one query per (stack-consistent script, n, root): ALL valid documents of exactly n "
+                "traversal and every variant with one container skipped / raw-extracted / left early at every position, and - "
+                "exhaustively - EVERY protocol-following script of at most 8 calls for every tree up to 6/5 (quick) resp. 8/7 "
+                "(thorough) tokens; nesting chains, deep chains (17/33 levels), container-sibling pairs; payload bytes symbolic. (2) H-SCRIPT: one query per (stack-consistent script, n, root): ALL valid documents of exactly n "
                 "bytes symbolic. Every call result, type, name/value span and get_depth compared with the reference cursor.",
         "bounds": {"shape_tokens": {"object_root": 6 if tier == "quick" else 8, "array_root": 5 if tier == "quick" else 7},
                    "arbitrary_bytes_configs(K,n,J,roots)": cfg, "D": 2},
@@ -762,6 +781,7 @@ def plan_C11(tier):
                 qs.append(shape_script_query(11, node, s, "tw", root))
         # raw on a non-container: false and nothing changes
     qs += sibling_queries(11, ("raw", "tw"))
+    qs += exhaustive_script_queries(11, 6, 5, 8) if tier == "quick" else exhaustive_script_queries(11, 7, 6, 9)
     # parser_to_writer into a writer that the container fills EXACTLY (the two-pass sizing idiom)
     from . import shapes as _sh
     for root, node in sibling_nodes()[:16]:
@@ -1114,6 +1134,8 @@ def reuse_queries(tier):
 def plan_C12(tier):
     qs = []
     qs += reuse_queries(tier)
+    # every protocol-following script with one reset somewhere in the middle
+    qs += exhaustive_script_queries(12, 6, 5, 9, restarts=1) if tier == "quick" else exhaustive_script_queries(12, 7, 6, 9, restarts=1)
     ns = (0, 1, 2, 3, 5, 6) if tier == "quick" else range(0, 11)
     for n in ns:
         for root in (1, 2):
@@ -1207,6 +1229,7 @@ def plan_C16(tier):
         nodes = shapes.chain_shapes(root, 4, True) + shapes.gen_shapes(root, 5 if tier == "quick" else 7, ("T", "S1"), 3)
         qs += shape_variant_queries(16, root, 0, variants=("full", "skip", "leave", "raw") if tier != "quick" else ("full", "skip"),
                                     nodes=nodes, witness_every=8)
+    qs += exhaustive_script_queries(16, 6, 5, 8) if tier == "quick" else exhaustive_script_queries(16, 7, 6, 9)
     lk = [Node("O", [Node("O", [Node("T"), Node("T")], [0, 1]), Node("T")], [1, 1]), Node("O", [Node("A", [Node("T"), Node("T")], []), Node("T")], [1, 1]),
           Node("O", [Node("T"), Node("O", [Node("T")], [0]), Node("T")], [1, 1, 2])]
     for node in lk:
